@@ -654,6 +654,14 @@ void QXmppOutgoingClient::handleStream(const QDomElement &streamElement)
         // no version specified, signals XMPP Version < 1.0.
         // switch to old auth mechanism if enabled
         if (d->streamVersion.isEmpty() && configuration().useNonSASLAuthentication()) {
+            // A pre-1.0 stream has no stream features and thus cannot negotiate STARTTLS: if TLS is
+            // required and the connection is not encrypted, no credentials may be sent.
+            if (!socket()->isEncrypted() &&
+                configuration().streamSecurityMode() == QXmppConfiguration::TLSRequired) {
+                warning(u"Server does not support TLS (pre-XMPP-1.0 stream)"_s);
+                disconnectFromHost();
+                return;
+            }
             startNonSaslAuth();
         }
     }
